@@ -1,5 +1,5 @@
 """C02 -- output is exactly the encoded instruction stream of the source."""
-from lib import asmgen as G, common
+from lib import asmgen as G, common, e2e
 from checks import asmfam
 from checks.asmfam import mk_case, answer_bytes, answer_kind, replay  # noqa: F401
 
@@ -129,6 +129,27 @@ def check(run):
             problems.append(f"assembling the same source again gave a different result: {c['again'][:80]} vs {ans[:80]}")
         return problems
 
+    # the same through the user-facing binary: `eas <file> [out]` (clap, Ingest::ingest_file, HexWrite)
+    okb, outb = e2e.build_bins(["eas"])
+    if not okb:
+        run.violation_unproved("build of the eas binary", outb[-2000:])
+    else:
+        sc = e2e.Scratch()
+        try:
+            sub = [c for c in cases if c.get("ref") is not None]
+            sub = sub[:1] + sub[1:(120 if run.tier == "thorough" else 30)]
+            nbad = 0
+            for i, c in enumerate(sub):
+                rc_e, out_e = e2e.eas(sc, c["src"], to_file=(i % 3 == 0))
+                if rc_e != 0 or out_e.strip() != c["ref"].hex():
+                    nbad += 1
+                    if nbad <= 2:
+                        run.violation(dict(property="C02", source=c["src"][:3000], via="eas binary", rc=rc_e, got=out_e.strip()[:400], expected=c["ref"].hex()[:400],
+                                           problems=["the eas binary does not print the reference encoding of the source"]))
+            run.corr["cases"] += len(sub)
+            run.corr["distribution"]["eas-binary"] = len(sub)
+        finally:
+            sc.cleanup()
     # the 8 identical macro programs must all give the same answer
     if tree_bad:
         run.log(f"PARSED TREE DIFFERS ({len(tree_bad)}): {tree_bad[0]['parsed'][:300]!r} vs {tree_bad[0]['expected'][:300]!r}")
